@@ -18,6 +18,11 @@ Definition exact_zat := exact_in 0 MAX_MONEY.
 Definition ctor_spec (lo hi x : Z) : res :=
   if x <? lo then Err Underflow else if hi <? x then Err Overflow else Ok x.
 
+(** [const fn] constructors: the value if in range, a panic (the documented failure signal of
+    a constructor that cannot return an error) otherwise; never an out-of-range value. *)
+Definition const_spec (lo hi x : Z) : outcome Z unit :=
+  if in_range lo hi x then Ok x else Panic.
+
 (** Sum of a sequence with the "every prefix in range" discipline of [try_fold]. *)
 Fixpoint prefix_sum_spec (lo hi acc : Z) (l : list Z) : option Z :=
   match l with
